@@ -372,6 +372,11 @@ def ob_prune_coverage(run, oid):
 
 
 def check(run):
+    ob_implicit_sources(run, "O8.12")
+    ob_status_reporting(run, "O8.11")
+    D.ob_watermark_comparisons(run, "O8.10", ["consensus::pool", "consensus::votor"], 14,
+                               "an off-by-one at the watermark either discards the state of the first undecided slot (its certificates are then refused and it never becomes decided: the "
+                               "watermark is stuck for ever) or keeps accepting / retaining an already decided slot")
     D.ob_state_mutations(run, "O8.9", ['consensus::pool::PoolImpl', 'consensus::pool::finality_tracker::FinalityTracker'], 'finality status, watermarks and per-slot state may only change by the reviewed transitions; anything else loses or resurrects decided slots')
     ob_no_downgrade(run, "O8.1")
     ob_direct_finalization(run, "O8.2")
@@ -382,3 +387,134 @@ def check(run):
     ob_cert_wiring(run, "O8.6b")
     ob_answers(run, "O8.7")
     ob_prune_coverage(run, "O8.8")
+
+
+UNDECIDED = {"None", "Notarized", "FinalPendingNotar"}
+ALL_STATUS = {"None", "Notarized", "FinalPendingNotar", "Finalized", "ImplicitlyFinalized", "ImplicitlySkipped"}
+
+
+def displaced_outcomes(prog, b, ins, stop_calls):
+    """From the block after `status.insert(..)` (call site `ins`), follow the CFG and classify what happens for every displaced
+    status: {'push': set, 'silent': set, 'panic': set}. A path ends at a Vec::push on the event ('push'), at a return / the next
+    loop round / another status insert ('silent'), or in a panic. Conditions on the displaced value select the cases."""
+    is_old = lambda t: K.mentions(t, lambda x: x[0] == "call" and len(x) > 3 and x[3] == ins.bb and x[1].endswith("BTreeMap::insert"))
+    es = b.edges()
+    succ = {}
+    for (a, c, l) in es:
+        succ.setdefault(a, []).append((c, l))
+    out = {"push": set(), "silent": set(), "panic": set()}
+    start = [c for (c, l) in succ.get(ins.bb, [])]
+    stack = [(s, frozenset(ALL_STATUS), frozenset([ins.bb])) for s in start]
+    pushes = set(c.bb for c in stop_calls)
+    inserts = set(c.bb for c in b.calls() if c.name.endswith("BTreeMap::insert") and K.mentions_field(b.operand_term(c.args[0]), "status", "FinalityTracker"))
+    n = 0
+    while stack:
+        bb, cases, seen = stack.pop()
+        n += 1
+        if n > 20000:
+            return None
+        if bb in pushes:
+            out["push"] |= cases
+            continue
+        t = b.blocks[bb]["term"]
+        if t["k"] == "return" or bb in seen or (bb in inserts and bb != ins.bb):
+            # restoring the displaced status (insert of the old value) and returning is 'silent' as well
+            out["silent"] |= cases
+            continue
+        nxt = succ.get(bb, [])
+        if not nxt:
+            out["panic"] |= cases
+            continue
+        if t["k"] == "switch":
+            sa = G.switch_atoms(b, bb, prog)
+            for (c, l) in nxt:
+                cs = set(cases)
+                for a in sa.get(l[1], []):
+                    if a[0] == "is_some" and is_old(a[1][0]):
+                        cs &= ({"None"} if not a[2] else (ALL_STATUS - {"None"}))
+                    elif a[0] == "variant" and is_old(a[1][0]):
+                        cs &= set(a[1][1])
+                if cs:
+                    stack.append((c, frozenset(cs), seen | {bb}))
+        else:
+            for (c, l) in nxt:
+                stack.append((c, cases, seen | {bb}))
+    return out
+
+
+def ob_status_reporting(run, oid):
+    prog = run.program("lib")
+    o = run.ob(oid, "implicit finalization / implicit skip: a slot whose displaced status was undecided is always reported in the FinalizationEvent; one that was "
+                    "already decided is never reported again",
+               "the parent-ready tracker and the pool learn about implicitly finalized blocks and implicitly skipped slots only through this event: a silently changed "
+               "status loses ready parents and prunable state, a repeated report announces a pair twice", floor=4)
+    b = prog.body(FT + "::handle_implicitly_finalized")
+    if b is None:
+        o.missing("FinalityTracker::handle_implicitly_finalized")
+        return
+    ins = [c for c in b.calls() if c.name.endswith("BTreeMap::insert") and K.mentions_field(b.operand_term(c.args[0]), "status", "FinalityTracker")]
+    pushes = [c for c in b.calls() if c.name.endswith("Vec::push") and K.mentions_arg(b, b.operand_term(c.args[0]), 4)]
+    want = {"ImplicitlySkipped": "implicitly_skipped", "ImplicitlyFinalized": "implicitly_finalized"}
+    done = set()
+    for c in ins:
+        val = b.operand_term(c.args[2])
+        vs = [x[2] for x in mir.walk(val) if isinstance(x, tuple) and x and x[0] == "agg" and str(x[1]).endswith("FinalizationStatus")]
+        if len(vs) != 1 or vs[0] not in want or K.mentions_call(val, "BTreeMap::insert"):
+            continue        # restoring insert(slot, old)
+        kind = vs[0]
+        ps = [p for p in pushes if K.mentions_field(b.operand_term(p.args[0]), want[kind])]
+        key = "handle_implicitly_finalized|%s" % kind
+        if len(ps) != 1:
+            o.fail(key + "|push-site", "expected one push to event.%s, found %d" % (want[kind], len(ps)), c.span)
+            continue
+        res = displaced_outcomes(prog, b, c, ps)
+        if res is None:
+            o.fail(key + "|paths", "too many paths", c.span)
+            continue
+        done.add(kind)
+        det = {k: sorted(v) for k, v in res.items()}
+        lost = (res["silent"] & UNDECIDED)
+        o.check(not lost, key + "|undecided-always-reported", "a slot displaced from an undecided status (none / Notarized / FinalPendingNotar) is pushed to event.%s (or the "
+                "contradiction panics), never changed silently" % want[kind], c.span, det)
+        again = res["push"] - UNDECIDED
+        o.check(not again, key + "|decided-not-reported-again", "a slot that was already decided is not reported again", c.span, det)
+    for kind in want:
+        if kind not in done:
+            o.fail("handle_implicitly_finalized|%s|insert-site" % kind, "no status.insert(.., %s) found" % kind, b.span)
+
+
+def ob_implicit_sources(run, oid):
+    """who may start implicit finalization, and for which parent"""
+    prog = run.program("lib")
+    o = run.ob(oid, "implicit finalization starts only from a block that IS finalized: the parent handed to handle_implicitly_finalized is the recorded parent of that very block",
+               "finalizing the parent of another block of a finalized slot (an equivocating sibling) finalizes a block no other node finalizes: conflicting finalized chains", floor=3)
+    sites = [c for d, bd in prog.bodies.items() if not bd.generated for c in bd.calls() if c.name == FT + "::handle_implicitly_finalized"]
+    if len(sites) < 3:
+        o.missing("three call sites of handle_implicitly_finalized (handle_finalized_block, add_parent, recursion)")
+    for c, key in K.ordinal_keys(sites, lambda c: "%s|handle_implicitly_finalized" % fshort(c.body.defpath)):
+        b = c.body
+        fn = K.root_fn(b.defpath).rsplit("::", 1)[-1]
+        par = b.operand_term(c.args[2])
+        atoms = G.guard_atoms(b, c.bb, prog)
+        if fn in ("handle_finalized_block", "handle_implicitly_finalized"):
+            # parent = self.parents.get(<the finalized block itself>)
+            ok = K.mentions_call(par, "BTreeMap::get") and K.mentions_field(par, "parents", "FinalityTracker") and K.mentions_arg(b, par, 3 if fn == "handle_implicitly_finalized" else 2)
+            src = b.operand_term(c.args[1])
+            ok = ok and K.mentions_arg(b, src, 3 if fn == "handle_implicitly_finalized" else 2)
+            o.check(ok, key + "|recorded-parent", "parent = parents[the block just (implicitly) finalized], source slot = that block's slot", c.span, {"parent": mir.show(par)[:120]})
+        elif fn == "add_parent":
+            # the block whose parent link arrives must be the block recorded as finalized for its slot
+            g = None
+            for a in atoms:
+                if a[0] == "eq" and a[2] is True:
+                    x, y = a[1]
+                    for (p, q) in ((x, y), (y, x)):
+                        if K.mentions_arg(b, p, 2) and not K.mentions_arg(b, q, 2):
+                            pv = b.provenance(q)
+                            if any(n == "status" for (_ow, n) in pv["fields"]):
+                                g = a
+            o.check(g is not None, key + "|same-block-as-finalized", "add_parent propagates only when the finalized hash recorded for the slot equals this block's hash", c.span,
+                    {"guards": G.atoms_show(atoms)})
+            o.check(K.is_arg(b, par, 3) and K.mentions_arg(b, b.operand_term(c.args[1]), 2), key + "|args", "handle_implicitly_finalized(block.slot, parent, ..) with add_parent's own arguments", c.span)
+        else:
+            o.fail(key + "|caller", "handle_implicitly_finalized called from unreviewed function %s" % fn, c.span)
